@@ -48,10 +48,13 @@ def standard(mod, ctx, replay=None):
             proof_broken = "translator: " + gen_info["error"]
 
     # 2. build: driver first (must build), then proofs (may break when generated code changed)
+    driver = mod.DRIVER
     ok, out = lib.lake_build([mod.DRIVER])
     if not ok:
         if hasattr(mod, "regenerate"):
             proof_broken = proof_broken or ("generated model does not build: " + lib.first_lean_error(out))
+            driver = None
+            log("generated model does not build (%s); comparing the implementation with std only" % proof_broken)
         else:
             log("MACHINERY-ERROR driver build failed: " + lib.first_lean_error(out))
             return 2
@@ -97,7 +100,7 @@ def standard(mod, ctx, replay=None):
                 pre.append(Case(e["witness"], "finding:" + fid))
         cases, exhaustive, dist = mod.generate(ctx.tier, ctx.seed)
         cases = pre + cases
-    results = lib.run_batch(ctx, cases, exe, mod.DRIVER, harness_env=getattr(mod, "HARNESS_ENV", None))
+    results = lib.run_batch(ctx, cases, exe, driver, harness_env=getattr(mod, "HARNESS_ENV", None))
     fails = lib.evaluate(cases, results)
 
     if replay:
@@ -117,7 +120,7 @@ def standard(mod, ctx, replay=None):
         log("escalating: searching the thorough input space for a failing input")
         more, _, _ = mod.generate("thorough", ctx.seed)
         more = more[: getattr(mod, "SEARCH_CAP", 400000)]
-        res2 = lib.run_batch(ctx, more, exe, mod.DRIVER, harness_env=getattr(mod, "HARNESS_ENV", None))
+        res2 = lib.run_batch(ctx, more, exe, driver, harness_env=getattr(mod, "HARNESS_ENV", None))
         fails2 = lib.evaluate(more, res2)
         cases, results, fails = cases + more, results + res2, fails + fails2
 
@@ -149,10 +152,10 @@ def standard(mod, ctx, replay=None):
         case = f.case
         if len(case.lines) > 2:
             def still(c):
-                rs = lib.run_batch(ctx, [c], exe, mod.DRIVER, jobs=1, harness_env=getattr(mod, "HARNESS_ENV", None))
+                rs = lib.run_batch(ctx, [c], exe, driver, jobs=1, harness_env=getattr(mod, "HARNESS_ENV", None))
                 return any(x.kind == f.kind for x in lib.evaluate([c], rs))
             case = lib.ddmin_lines(case, still)
-            rs = lib.run_batch(ctx, [case], exe, mod.DRIVER, jobs=1)
+            rs = lib.run_batch(ctx, [case], exe, driver, jobs=1)
             ff = [x for x in lib.evaluate([case], rs) if x.kind == f.kind]
             row, li = (ff[0].row, ff[0].line_idx) if ff else (f.row, f.line_idx)
         else:
